@@ -153,8 +153,9 @@ def judgeFrom (bb : Option Name) : List Obj → Nat → List StepRec → List St
   | P, i, r :: rs =>
     (judgeStep bb P r).map (fun v => s!"{v} step={i}") ++ judgeFrom bb (r.snap.getD P) (i + 1) rs
 
-/-- the oracle: before the first step only the master exists, with uid = euid = get_root_uid() -/
-def judgeEv (root : Name) (bb : Option Name) (trace : List StepRec) : List String :=
-  judgeFrom bb [{ oid := masterOid, name := "/c20/master", uid := some root, euid := some root }] 0 trace
+/-- the oracle: before the first step only the master exists, with uid = euid = get_root_uid() - or "NONAME" / 0 when
+    it defines no get_root_uid() -, and (configuration `simul`) the simul_efun object with "NONAME" / 0: `initObjs` -/
+def judgeEv (cfg : Cfg) (trace : List StepRec) : List String :=
+  judgeFrom cfg.bb (initObjs cfg) 0 trace
 
 end NV.C20
